@@ -134,6 +134,9 @@ func runCheck(prop, tier string) int {
 		for _, a := range res.Trusted {
 			pr.trusted[a] = true
 		}
+		for _, a := range res.Skipped {
+			pr.assumed["skipped obligation "+a] = true
+		}
 		for _, w := range res.Warnings {
 			pr.warnings[k+": "+w] = true
 		}
